@@ -152,6 +152,8 @@ def split_session(records, chunk_events):
     over a cut: that only makes the later piece's expectations weaker, never wrong."""
     if len(records) <= 2 * chunk_events:
         return [(0, records)]
+    # TLC follows a single behaviour for at most 65535 states: a longer stretch without a table reset
+    # cannot be validated as one piece (generators cut their sessions long before that)
     out = []
     cfgrec = records[0]
     start, start_cfg = 0, records[0]
@@ -165,6 +167,9 @@ def split_session(records, chunk_events):
             start, start_cfg = ri, cfgrec
     piece = records[start:]
     out.append((start, piece if start == 0 else [start_cfg] + piece))
+    for (_, pc) in out:
+        if len(pc) > 65000:
+            raise ToolError("a session has %d records without a table reset; TLC validates at most 65535 per behaviour" % len(pc))
     return out
 
 
